@@ -9,8 +9,14 @@ from . import types as Ty
 
 
 class Loop:
-    def __init__(self, inv, pos=None, seen=None):
+    def __init__(self, inv, pos=None, seen=None, step=(), ghosts=None):
         self.inv = list(inv)
+        # ghost loop variables: name -> (init expression, per-iteration update
+        # expression; prev(e) refers to the start of the iteration)
+        self.ghosts = dict(ghosts or {})
+        # two-state clauses checked at the end of an arbitrary iteration;
+        # prev(e) is e evaluated at the start of that iteration
+        self.step = list(step)
         self.pos = pos  # name under which the position counter is visible
         self.seen = seen  # name of the ghost 'visited keys' set
 
